@@ -3,6 +3,7 @@
 
 mod basic;
 mod cfgjudge;
+mod ctjudge;
 mod exec;
 mod gcjudge;
 mod mapjudge;
@@ -117,6 +118,7 @@ fn main() {
                 "C03" | "C04" => structural::run(c, &mut rep, &prop),
                 "C01" => exec::c01(c, &mut rep, seed),
                 "C14" => cfgjudge::run(c, &mut rep),
+                "C11" => ctjudge::run(c, &mut rep),
                 "C19" => mapjudge::c19(c, &mut rep),
                 "C13" => mapjudge::c13(c, &mut rep),
                 "C06" | "C07" => gcjudge::run(c, &mut rep, &prop, seed),
